@@ -38,6 +38,59 @@ func GenConfig(r Rander, kind string, nops int) *Config {
 		line := uint64(r.Intn(nlines))
 		c.Ops = append(c.Ops, Op{Write: r.Chance(1, 2), Addr: line*stride + uint64(r.Intn(16))*4, Val: uint32(r.U64())})
 	}
+	// a second driver on the same top connection in a third of the cases
+	if r.Chance(1, 3) {
+		for i := 0; i < nops/2+1; i++ {
+			line := uint64(r.Intn(nlines)) + uint64(nlines) // disjoint lines
+			c.Ops2 = append(c.Ops2, Op{Write: r.Chance(1, 2), Addr: line*stride + uint64(r.Intn(16))*4, Val: uint32(r.U64())})
+		}
+	}
+	// a control history (legal orders) against one component in a third of the cases
+	if r.Chance(1, 3) {
+		target := map[string][]string{
+			"ideal": {"MemCtrl"}, "banked": {"Mem"}, "wt": {"L1", "MemCtrl"}, "wb": {"L2", "MemCtrl"},
+			"wtwb": {"L1", "L2", "MemCtrl"}, "vm": {"L1", "L2", "TLB", "L2TLB", "MMU", "AT"},
+			"dram": {"DRAM"}, "wbdram": {"L2", "DRAM"},
+		}[kind]
+		t := target[r.Intn(len(target))]
+		at := r.Range(1, nops-1)
+		const (
+			pause, drain, enable, reset, invalidate, flush = 0, 1, 2, 3, 4, 5
+		)
+		var seq []int
+		switch r.Intn(6) {
+		case 0:
+			seq = []int{pause, enable}
+		case 1:
+			seq = []int{drain, flush, enable}
+		case 2:
+			seq = []int{drain, enable}
+		case 3:
+			seq = []int{reset}
+		case 4:
+			seq = []int{pause, reset}
+		default:
+			seq = []int{flush, drain, flush, enable} // first flush is illegal while enabled
+		}
+		// half of the flush/invalidate commands carry an address filter naming several written lines
+		var filter []uint64
+		if r.Chance(1, 2) {
+			seen := map[uint64]bool{}
+			for _, op := range c.Ops {
+				if op.Write && !seen[op.Addr/64] && len(filter) < 6 {
+					seen[op.Addr/64] = true
+					filter = append(filter, op.Addr/64*64)
+				}
+			}
+		}
+		for _, cmd := range seq {
+			k := Ctrl{After: at, Target: t, Cmd: cmd}
+			if cmd == flush || cmd == invalidate {
+				k.Addrs = filter
+			}
+			c.Ctrl = append(c.Ctrl, k)
+		}
+	}
 	c.Normalize()
 	return c
 }
@@ -60,6 +113,16 @@ func ShrinkConfigs(c *Config) []*Config {
 				out = append(out, cp(ops))
 			}
 		}
+	}
+	if len(c.Ops2) > 0 {
+		d := *c
+		d.Ops2 = nil
+		out = append(out, &d)
+	}
+	if len(c.Ctrl) > 0 {
+		d := *c
+		d.Ctrl = nil
+		out = append(out, &d)
 	}
 	if c.Window > 1 {
 		d := *c
